@@ -55,7 +55,9 @@ def with_history(rng, db, template=None):
     out = {}
     for name, t in db.items():
         ints = [i for i, c in enumerate(t["cols"]) if c["ty"] in ("i", "I")]
-        src = t["rows"] or ([template] if template and len(template) == len(t["cols"]) else [])
+        # an empty table gets dead rows made from its column types
+        made = [dict(t="i", v=1, s=[]) if c["ty"] in ("i", "I") else dict(t="s", v=0, s=[97]) if c["ty"] == "s" else dict(t="b", v=0, s=[]) for c in t["cols"]]
+        src = t["rows"] or [made]
         if not ints or not src or len(t["rows"]) > 400 or any(r[ints[0]]["t"] == "i" and r[ints[0]]["v"] == DEAD_MARK for r in t["rows"]):
             out[name] = t
             continue
